@@ -14,6 +14,12 @@ from sim.vclock import Proc, VClock
 from sim.vloop import VLoop, pending_tasks
 
 
+def failing_prepare_step(**kw):
+    """a preparation step handed out by the plug-in's track processor (runs in the task executor's pool) that fails at once"""
+    PROCESSOR_RAISED.append(2)
+    raise RuntimeError("simulated failure of a track preparation step")
+
+
 PROCESSOR_RAISED = []  # the plug-in's track processor raised in on_prepare_track (reset per run by the harness)
 
 
